@@ -190,6 +190,18 @@ impl Curve {
         self.min_distance.len()
     }
 
+    // The maximum number of jobs in a window of length
+    // `largest_known_distance()`. If the delta-min vector ends in a
+    // plateau, the job counts of all entries equal to the last one need
+    // a window that is one time unit longer.
+    fn jobs_within_largest_known_distance(&self) -> usize {
+        let largest = self.largest_known_distance();
+        self.min_distance
+            .iter()
+            .position(|dist| *dist == largest)
+            .map_or(self.min_distance.len(), |idx| idx + 1)
+    }
+
     // note: does not extrapolate
     fn lookup_arrivals(&self, delta: Duration) -> usize {
         // TODO: for really large vectors, this should be a binary search...
@@ -237,7 +249,7 @@ impl ArrivalBound for Curve {
         if delta.is_non_zero() {
             // first, resolve long delta by super-additivity of arrival curves
             let prefix = delta / self.largest_known_distance();
-            let prefix_jobs = prefix as usize * self.jobs_in_largest_known_distance();
+            let prefix_jobs = prefix as usize * self.jobs_within_largest_known_distance();
             let tail = delta % self.largest_known_distance();
             if tail > self.min_job_separation() {
                 prefix_jobs + self.lookup_arrivals(tail) as usize
